@@ -77,4 +77,8 @@ def run_update_finding_metadata(tier="quick", seed=0):
 
 
 def extra_checks(tier="quick", seed=0):
-    return [run_update_finding_metadata(tier, seed)]
+    # the report of a real multi-codemod run: one result per executed codemod, in execution order, per-codemod content as in single runs
+    from contracts.props.C09 import run_batch_vs_single
+    rep = run_batch_vs_single(tier, seed)
+    rep = dict(rep, id="bounded:report of a real multi-codemod run: one result per executed codemod, in execution order (real CLI)")
+    return [run_update_finding_metadata(tier, seed), rep]
